@@ -200,6 +200,22 @@ def run_agree(sc):
         if p.name.startswith("up_") or p.name.endswith(("_M0", "_mtheta", "_mphi")):
             continue
         pars[p.name] = float(dflt.get(p.name, p.default))
+    # a multiplicity of zero where the control parameter allows it (no shells at all, case 0 ...)
+    for q in P.kernel_parameters:
+        if q.length > 1 and q.length_control:
+            ctlp = P[q.length_control]
+            if ctlp.limits[0] <= 0 and rng.random() < 0.3:
+                pars[q.length_control] = 0.0
+    for p in P.call_parameters:
+        if p.choices and p.limits[0] <= 0 and rng.random() < 0.3:
+            pars[p.name] = 0.0
+    # a size sitting exactly on its lower limit (a layer of zero thickness, one disc in the stack)
+    if rng.random() < 0.3:
+        onlim = [p for p in P.call_parameters if p.type == "volume" and p.name in pars and np.isfinite(p.limits[0])
+                 and (p.name.startswith("thick") or p.limits[0] > 0)]
+        if onlim:
+            p = rng.choice(onlim)
+            pars[p.name] = float(p.limits[0])
     if not info.structure_factor:
         pars["scale"], pars["background"] = rng.choice([1.0, 0.5]), rng.choice([0.0, 0.125])
     else:
